@@ -99,6 +99,12 @@ def probe_variants(run, fields=("falsy", "index", "embed", "nest", "syntax", "in
         else:
             run.broken.append(Broken("correspondence", "witness of variant %s: unexpected outcome" % f, {"result": o}))
             cfg[f] = G.CFG_VALUES[f][0]
+    if "syntax" in cfg:
+        # `$` (also matches before one trailing newline) or \Z: SelectorProperty.clean("name\n")
+        nl = common.run_impl("c07_impl", [{"kind": "syntax", "strings": ["name\n"]}], procs=1)[0]["syntax"][0]
+        if nl is False:
+            cfg["syntax"] += "Z"
+        obs["syntax_newline_accepted"] = nl
     return cfg, obs
 
 
@@ -156,7 +162,7 @@ def oracle_case(build, tree, selectors, results, cfg):
                     tags -= {"uppercase-key"}
                 finding = None
                 for tag, (field, defective, fid) in FINDING_OF_TAG.items():
-                    if tag in tags and cfg.get(field) == defective:
+                    if tag in tags and cfg.get(field) in (defective, defective + "Z"):
                         finding = fid
                         break
                 out.append(Violation(
@@ -293,7 +299,7 @@ def check(run):
         "the selector in a granular marking. An (object, selector) evaluation is non-trivial when the selector is a "
         "real path of the object or a near miss derived from one (all but the four fixed junk selectors).")
     with common.Lock():
-        res = common.build_props("Props/C08.v")
+        res = common.build_props("Props/C08.v", extra_targets=("Model/MarkingsRun.vo",))
         run.add_build(res, "make -C coq Props/C08.vo (coqc 8.16.1, full .vo) + Print Assumptions per theorem")
     cfg8, obs = probe_variants(run)
     cfg = full_cfg(cfg8)
@@ -306,7 +312,7 @@ def check(run):
                     "selector %r addresses nothing but the v20 Indicator constructor accepts it" % sel,
                     {"kind": "c08", "build": b, "selector": sel, "function": "ctor", "expect": "rejected"}, IND20_FINDING))
             continue
-        if cfg8.get(f) == G.CFG_VALUES[f][0] and f in obs:
+        if cfg8.get(f) in (G.CFG_VALUES[f][0], G.CFG_VALUES[f][0] + "Z") and f in obs:
             tag = [t for t, v in FINDING_OF_TAG.items() if v[0] == f][0]
             fn = WITNESS_FN[f]
             run.violations.append(Violation(
